@@ -1,5 +1,6 @@
 # -*- coding: utf-8 -*-
 
+import copy
 import functools as ft
 from typing import (
     Any,
@@ -497,12 +498,12 @@ class ASTTypeBuilder:
                 values.append(self._build_enum_value(value))
                 value_names.add(value.name.value)
 
-        return EnumType(
-            name,
-            description=enum_type.description,
-            values=values,
-            nodes=enum_type.nodes + extensions,  # type: ignore
-        )
+        # Copied rather than rebuilt: an instance of an EnumType subclass must
+        # keep its class (and whatever behaviour it overrides).
+        extended = copy.copy(enum_type)
+        extended.nodes = enum_type.nodes + extensions  # type: ignore
+        extended._set_values(values)
+        return extended
 
     def _extend_union_type(self, union_type: UnionType) -> UnionType:
         name = union_type.name
@@ -582,14 +583,13 @@ class ASTTypeBuilder:
         name = scalar_type.name
         extensions = self._collect_extensions(name, _ast.ScalarTypeExtension)
 
-        return ScalarType(
-            name,
-            description=scalar_type.description,
-            serialize=scalar_type._serialize,
-            parse=scalar_type._parse,
-            parse_literal=scalar_type._parse_literal,
-            nodes=scalar_type.nodes + extensions,  # type: ignore
-        )
+        # Copied rather than rebuilt: subclassing ScalarType and overriding
+        # serialize / parse / parse_literal is the documented way to implement
+        # a custom scalar, a plain ScalarType built from the private callables
+        # would silently lose that behaviour.
+        extended = copy.copy(scalar_type)
+        extended.nodes = scalar_type.nodes + extensions  # type: ignore
+        return extended
 
     def _extend_argument(self, argument: Argument) -> Argument:
         return Argument(
